@@ -34,7 +34,8 @@ TNext ==
   /\ l <= Len(TraceLog) /\ l' = l + 1
   /\ LET e == TraceLog[l] IN
      IF e.a = "Reset" THEN sync' = e.sync /\ open' = [g \in 1..MaxG |-> 0] /\ writes' = [g \in 1..MaxG |-> 0] /\ want' = [g \in 1..MaxG |-> 1] /\ inw' = {} /\ failed' = FALSE /\ UNCHANGED bad
-     ELSE IF failed THEN UNCHANGED <<sync, open, writes, want, inw, failed, bad>>
+     ELSE IF failed \/ e.a \in {"Gate", "Pool"}          \* implementation-level records: judged by EventLifeTrace (conformance), not here
+          THEN UNCHANGED <<sync, open, writes, want, inw, failed, bad>>
      ELSE IF Guard(e) THEN Effect(e) /\ UNCHANGED <<failed, bad>>
      ELSE failed' = TRUE /\ bad' = Append(bad, <<l, "">>) /\ UNCHANGED <<sync, open, writes, want, inw>>
 TSpec == TInit /\ [][TNext]_tvars
